@@ -198,7 +198,9 @@ func newFakeWorld(ft fakeType, ctor string) (*fakeWorld, error) {
 	return w, nil
 }
 
-func (w *fakeWorld) field(m int) reflect.Value { return w.obj.Elem().FieldByName("On" + w.methods[m-1]) }
+func (w *fakeWorld) field(m int) reflect.Value {
+	return w.obj.Elem().FieldByName("On" + w.methods[m-1])
+}
 
 // set assigns field m as the script says.
 func (w *fakeWorld) set(m int, sc script) error {
